@@ -161,6 +161,8 @@ class Interp(HeapMixin, OpsMixin, StmtMixin, CallMixin):
                 ks = self.sort_of(kt)
                 r = DictRec(None, kt, ty[2], z3.Array(name + "#dom", ks, z3.BoolSort()), None, sym=name,
                             size=z3.Int(name + "#size"))
+                if self.contract is not None:
+                    r.valsym = self.contract.pre_state.get("alias_values", {}).get(name)
                 if ty[2][0] in ("int", "real", "bool", "str", "enum", "any", "datetime", "timedelta"):
                     r.val = z3.Array(name + "#val", ks, self.sort_of(ty[2]))
                 return r
@@ -203,6 +205,16 @@ class Interp(HeapMixin, OpsMixin, StmtMixin, CallMixin):
             run.next_oid += 1
             run.sym_oids[name] = oid
             run.templates[oid] = factory
+            ref = VRef(oid, kind, cls)
+            if kind == "obj" and ("[" in name or "." in name) and getattr(self, "verifier", None) is not None \
+                    and (self.contract is None or self.contract.use_invariants):
+                # a pre-state object reached through a field or container: it satisfies its class invariants too
+                for _lbl, ex in self.verifier.class_clauses(self.reg.invariants, cls) + self.verifier.class_clauses(self.reg.config, cls):
+                    try:
+                        run.assume(self.verifier.eval_bool(self, ex, E.Frame("<spec>", None, {}, None, "inv"), {"self": ref}))
+                    except (E.Unsupported, E.PyExc):
+                        pass
+            return ref
         return VRef(oid, kind, cls)
 
     # ------------------------------------------------------------ names
